@@ -116,7 +116,16 @@ impl BitFont {
     }
 
     pub fn is_default(&self) -> bool {
-        self.name == DEFAULT_FONT_NAME
+        if self.name != DEFAULT_FONT_NAME {
+            return false;
+        }
+        // glyphs can be edited in place: the name alone does not tell that this still is the built-in font
+        let default = BitFont::default();
+        self.size == default.size
+            && self.length == default.length
+            && (0..self.length as u32)
+                .filter_map(char::from_u32)
+                .all(|ch| self.get_glyph(ch).map(|g| &g.data) == default.get_glyph(ch).map(|g| &g.data))
     }
 
     pub fn convert_to_u8_data(&self) -> Vec<u8> {
